@@ -69,8 +69,25 @@ def run_case(case, fake, mod):
             fake.now += t["eps"][0] / t["eps"][1]
             cur["d"] = t["dur"][0] / t["dur"][1]
             inter.step()
-        return {"t0": [t0.numerator, t0.denominator], "starts": [[s.numerator, s.denominator] for s in starts],
-                "ref_starts": [[s.numerator, s.denominator] for s in ref_starts]}
+        out = {"t0": [t0.numerator, t0.denominator], "starts": [[s.numerator, s.denominator] for s in starts],
+               "ref_starts": [[s.numerator, s.denominator] for s in ref_starts]}
+        # a raw clock that moves a little on every single read: a step that ends within a few such ticks of its deadline must be
+        # paced without an exception (a real clock never reads the same twice)
+        delta = 1 / 4096
+        W = interval - offset
+        if W > 0:
+            fake.on_read = lambda kind: setattr(fake, "now", fake.now + delta)
+            try:
+                inter2 = FixedIntervalInteraction.with_sleep_adjustor(A(), E(), interval, offset)
+                inter2.setup()
+                for m in range(-2, 10):
+                    cur["d"] = max(W / k - m * delta / 2, 0.0)
+                    inter2.step()
+            except Exception as e:  # noqa: BLE001
+                out["edge_error"] = f"{type(e).__name__}: {e}"
+            finally:
+                fake.on_read = None
+        return out
     finally:
         for n, v in saved.items():
             setattr(ptime, n, v)
